@@ -1001,13 +1001,14 @@ def gen_wkdibe(rng, n, tier):
         for cp in child_patterns(pat, rng, 3 if tier != "thorough" else 9):
             # the list must repeat the parent's fixed slots; hidden slots of the parent may be repeated as hidden or left out
             attrs = [(i, vals[i] + (R if rng.random() < 0.2 and vals[i] + R < (1 << 256) else 0), False) for i, ch in enumerate(cp) if ch == "x"]
-            attrs += [(i, 0, True) for i, ch in enumerate(cp) if ch == "h" and (pat[i] == "f" or rng.random() < 0.5)]
+            # (the identifier field of an omit-from-keys entry is ignored by key derivation: it carries zero, the slot's value, or junk)
+            attrs += [(i, rng.choice([0, vals[i], 11 + i, (1 << 256) - 1]), True) for i, ch in enumerate(cp) if ch == "h" and (pat[i] == "f" or rng.random() < 0.5)]
             isnd = rng.random() < 0.5
             ck = S.key("wk_ndqualify" if isnd else "wk_qualify", p0, k, attrs, random=not isnd)
             keys[ck] = cp
             if "f" in cp and rng.random() < 0.5:
                 for cp2 in child_patterns(cp, rng, 1):
-                    attrs2 = [(i, vals[i], False) for i, ch in enumerate(cp2) if ch == "x"] + [(i, 0, True) for i, ch in enumerate(cp2) if ch == "h" and cp[i] == "f"]
+                    attrs2 = [(i, vals[i], False) for i, ch in enumerate(cp2) if ch == "x"] + [(i, rng.choice([0, vals[i], 13 + i]), True) for i, ch in enumerate(cp2) if ch == "h" and (cp[i] == "f" or rng.random() < 0.5)]
                     ck2 = S.key("wk_qualify", p0, ck, attrs2); keys[ck2] = cp2
     # the witness of the cursor defect: parent {0 fixed}, step {0, 2 hidden, 4 fixed} with l >= 5 handled by thorough l; here l=4 variant
     kp = S.key("wk_keygen", p0, m0, [(0, vals[0], False)]); keys[kp] = "x" + "f" * (l - 1)
